@@ -506,6 +506,8 @@ pub uninterp spec fn u64_of(b: U64ED) -> u64;
 pub fn u64ed_to_u64(b: U64ED) -> (r: u64) ensures r == u64_of(b) { unimplemented!() }
 pub broadcast axiom fn axiom_u64ed_roundtrip(x: u64)
     ensures #[trigger] u64_of(u64ed_of(x)) == x;
+pub broadcast axiom fn axiom_u64ed_roundtrip2(x: U64ED)
+    ensures #[trigger] u64ed_of(u64_of(x)) == x;
 
 // U512ED::from_addr_u256 (uint_ed.rs): address ++ 12 zero bytes ++ 32-byte big-endian slot; never fails for these widths
 pub uninterp spec fn u512_key(a: Address, m: U256) -> U512ED;
@@ -535,3 +537,18 @@ pub fn vec_any_opt_b256<F: Fn(&Option<B256>) -> bool>(v: &Vec<Option<B256>>, f: 
         r ==> exists|i: int| 0 <= i < v@.len() && call_ensures(f, (&#[trigger] v@[i],), true),
         !r ==> forall|i: int| 0 <= i < v@.len() ==> call_ensures(f, (&#[trigger] v@[i],), false),
 { v.iter().any(|x| f(x)) }
+
+// N29: constructors whose other arguments are revm / alloy values: only the index fields the kernel reads are kept
+impl TxReceiptED {
+    #[verifier::external_body]
+    pub fn new_indexed(block_hash: B256ED, block_number: U64ED, transaction_hash: B256ED, transaction_index: U64ED) -> (r: Result<TxReceiptED, VErr>)
+        ensures r is Ok ==> (r->Ok_0).block_hash == block_hash && (r->Ok_0).block_number == block_number
+            && (r->Ok_0).transaction_hash == transaction_hash && (r->Ok_0).transaction_index == transaction_index,
+    { unimplemented!() }
+}
+impl TxED {
+    #[verifier::external_body]
+    pub fn new_indexed(hash: B256ED, block_hash: B256ED, block_number: U64ED, transaction_index: U64ED) -> (r: TxED)
+        ensures r.hash == hash && r.block_hash == block_hash && r.block_number == Some(block_number) && r.transaction_index == Some(transaction_index),
+    { unimplemented!() }
+}
